@@ -32,6 +32,7 @@ func init() {
 		},
 		Strata: []fw.Stratum{
 			{Name: "obu-sequences", N: fw.Const(300000, 8000000), Run: c13Seq},
+			{Name: "leb128-boundary-packing", N: fw.Const(6000, 300000), Run: c13Boundary},
 			{Name: "leb128", N: fw.Const(c13LebBlocks, c13LebBlocks), Run: c13Leb, Exhaustive: true},
 			{Name: "obu-header-all-2^16", N: fw.Const(256, 256), Run: c13Hdr, Exhaustive: true},
 		},
@@ -126,7 +127,46 @@ func c13Seq(c *fw.Ctx, i int) {
 	r := c.R
 	mtu := c13MTU(r)
 	obus := c13OBUs(r, mtu)
-	sizeOnLast := r.Bool()
+	c13Judge(c, i, mtu, obus, r.Bool())
+}
+
+// c13Boundary: k small OBUs followed by a large one, with the MTU chosen so that the free space left in the packet
+// when the large OBU starts is at (or next to) a LEB128 size-class boundary (127/128, 16383/16384): that is where
+// the length-field arithmetic of the aggregation has its edge cases.
+func c13Boundary(c *fw.Ctx, i int) {
+	mtu, obus := c13BoundaryCase(c.R)
+	c13Judge(c, i, mtu, obus, c.R.Bool())
+}
+
+// c13BoundaryCase builds the (MTU, OBU sequence) of the LEB128-boundary packing stratum (also used by C08).
+func c13BoundaryCase(r *fw.Rand) (int, []ref.OBU) {
+	k := r.Range(0, 5)
+	var obus []ref.OBU
+	used := 0
+	for q := 0; q < k; q++ {
+		o := ref.OBU{Type: uint8(r.Pick(3, 4, 5, 6, 7)), Payload: r.Bytes(r.Pick(0, 1, 1, 2, 3))}
+		obus = append(obus, o)
+		used += 1 + 1 + len(o.Payload) // length field + header + payload (each is short)
+	}
+	target := r.Pick(126, 127, 128, 129, 130, 16382, 16383, 16384, 16385, 16386)
+	if r.Chance(2, 3) {
+		target = r.Pick(126, 127, 128, 129, 130)
+	}
+	mtu := 1 + used + target
+	if mtu > 65535 || mtu < 2 {
+		mtu = 200
+	}
+	big := ref.OBU{Type: 6, Payload: r.Bytes(r.Pick(target-3, target-2, target-1, target, target+1, target+2, 2*target, target+r.Range(3, 300)))}
+	obus = append(obus, big)
+	if r.Bool() {
+		obus = append(obus, ref.OBU{Type: uint8(r.Pick(4, 5, 6)), Payload: r.Bytes(r.Pick(0, 1, 5, 200))})
+	}
+	return mtu, obus
+}
+
+func c13Judge(c *fw.Ctx, i int, mtu int, obus []ref.OBU, sizeOnLast bool) {
+	r := c.R
+	_ = r
 	var in []byte
 	for k := range obus {
 		in = append(in, obus[k].Raw(k < len(obus)-1 || sizeOnLast)...)
